@@ -748,6 +748,12 @@ Definition rt_accepted_iff := accepted_iff parse_rt print_rt wf_rt rt_parse_prin
 Definition st_accepted_iff := accepted_iff parse_st print_st wf_st st_parse_print st_sound'.
 Definition lv_accepted_iff := accepted_iff parse_lv print_lv wf_lv lv_parse_print lv_sound'.
 
+Definition eq_ws_independent := ws_independent parse_eq print_eq wf_einsum eq_parse_print.
+Definition dir_ws_independent := ws_independent parse_dir print_dir wf_dir dir_parse_print.
+Definition rt_ws_independent := ws_independent parse_rt print_rt wf_rt rt_parse_print.
+Definition st_ws_independent := ws_independent parse_st print_st wf_st st_parse_print.
+Definition lv_ws_independent := ws_independent parse_lv print_lv wf_lv lv_parse_print.
+
 Definition eq_print_injective := print_injective parse_eq print_eq wf_einsum eq_parse_print.
 Definition dir_print_injective := print_injective parse_dir print_dir wf_dir dir_parse_print.
 Definition rt_print_injective := print_injective parse_rt print_rt wf_rt rt_parse_print.
